@@ -93,6 +93,30 @@ CLAIMED = {
 }
 
 
+# additions of later rounds, appended to the level text (rounds 3-5; details in DESIGN.md §8.2c-e)
+ADDED = {
+ "C01": "Σ also holds the digit-shape number family (every digit count 1..17 x every decimal-point position x 7 digit patterns, exponent-shifted, f32-widened readings, k/n quotients; bare, with units, as coordinates), size witnesses (every size 1..72 and around powers of two), all ordered pairs of a 400-value pool one after another and inside one document (history independence).",
+ "C02": "As C01; additionally every value through six typed serde entry points (from_str / from_slice / from_reader::<T>, Option<T>, Vec<T> element, from_value::<T> with sorted members) and embedded in a user's own serde struct (Option / Vec / BTreeMap / tuple fields).",
+ "C03": "Plus long tokens of every length 1..72 and around powers of two, all 256 byte values substituted / inserted at every position of short documents, timestamp texts around DST transitions, and flat inputs of 20 000 (thorough 100 000 / 300 000) items.",
+ "C04": "Plus coordinate spelling deviations, the digit-shape number family and size witnesses in both directions.",
+ "C05": "Every document with <= 1 deviation (thorough: every document) is also decoded through the typed entry point of its kind (six serde entry points) and must give the same value.",
+ "C06": "Plus malformed texts, leap seconds, 1900-2200, transition texts with agreeing / disagreeing offsets, two timestamps in one document, the typed serde entry points on every emitted Hayson text, history pairs.",
+ "C07": "Plus ref chains of every length 1..40 and around 64 / 100 / 256 / 1000 (rho shapes, every target), a unit sweep over every database unit, four resolver behaviours for unknown ids.",
+ "C08": "Plus long chains for every n 1..72 ... 1000 and flat chains of 5 000 / 20 000 / 100 000 (thorough 300 000) operands printed / parsed / reprinted in child processes on a 2 MiB stack.",
+ "C09": "Plus long tokens, all-256-byte substitution / insertion on short filters, flat filters of 20 000 (thorough 100 000) terms, four resolver behaviours for unknown ids.",
+ "C10": "Plus Display and Debug under ~125 format specifications (width, fill, alignment, precision, sign, alternate, zero padding) for Value and each typed value, size witnesses, the digit-shape numbers.",
+ "C11": "Plus size witnesses through readers of fixed chunk sizes, the whole iterator API of the lazy row iterator, coordinate spelling deviations and digit-shape numbers / coordinates.",
+ "C12": "Plus the wide set (rank-based transitivity), named-tag laws over identifiers harvested from the library's source, and laws after mutation (29² dict contents x 8 in-place edit routes: ==, cmp, two hashers, set membership against a freshly built value).",
+ "C13": "Plus ~200 shaped taxonomies (long chains, wide fans, stacked diamonds, lattices, re-defined defs) and Reflection::make over defs not closed under supertypes on all pairs.",
+ "C14": "Plus C14-P (all ordered pairs / triples of queries regardless of cache snapshots), C14-V (volume), and C14-F: a SUPPLEMENTARY free-running pass, not exhaustive — 2-16 OS threads over one shared namespace with the genuine DashMap for a fixed time, every answer compared with the answer given alone (for shared state reached without a shard lock, which the cooperative scheduler cannot preempt).",
+ "C15": "Plus positions, all ordered pairs of identifiers in one document, distinct entries never equal, and the wide substitution sweep (~480 characters of the Latin-1, Greek, super/subscript, letterlike and full-width blocks at every position of every identifier: must not be found).",
+ "C16": "Plus 17 magnitudes incl. 1e±200, non-finite quantities through convert_to, and 15 operand pairs (NaN, ±INF, ±0, subnormal, overflow) through + - * /.",
+ "C17": "Plus focused machines (list, dict, datetime, grid), 51 exotic values, the twins machine (values == cannot tell apart overwriting each other), every history also with a caller that never fetches the error message, borrow and bad-string sweeps.",
+ "C18": "Plus machine histories under ASan, borrow / bad-string sweeps, and the long-error sweep (every text-taking entry point with malformed 1-/2-/3-/4-byte text at sizes around 60 ... 65 536, message fetched and destroyed).",
+ "C19": "Plus wide records, lists of every length 1..72 ... 1000 in four shapes.",
+ "C20": "Plus a neighbour sweep over 106 characters, distant interactions, and re-entrant callbacks (chains of 1-3 records whose resolver / localiser call dis_macro / dict_to_dis / Dict::dis again).",
+}
+
 NOT_YET = "check not built yet in this round (machinery under construction; see DESIGN.md for the planned exhaustive check)"
 
 def main():
@@ -107,7 +131,7 @@ def main():
             "evidence_file": f"/verif/evidence/{pid}.json",
             "replay_cmd_template": f"./check {pid} --replay {{path}}",
             "engine": "hsmc",
-            "level_claimed": {"category": cat, "text": text, "design_ref": ref},
+            "level_claimed": {"category": cat, "text": text + (" " + ADDED[pid] if pid in ADDED else ""), "design_ref": ref},
             "level_note": note,
             "technique": tech,
         })
